@@ -150,6 +150,7 @@ Proof. unfold render. apply flat_map_app. Qed.
 Lemma timeout_millis_wire t : timeout_millis t = wire_timeout t.
 Proof.
   unfold timeout_millis, wire_timeout, NS_PER_MS, U64_MAX. destruct t as [ns|]; [|reflexivity].
+  cbv zeta. destruct (N.ltb_spec (ns / 1000000) 1); [lia|].
   destruct (N.ltb_spec (ns / 1000000) 18446744073709551615); lia.
 Qed.
 
@@ -221,7 +222,7 @@ Proof.
   unfold wf_cfg. intros H. apply andb_true_iff in H as [H Hq]. apply andb_true_iff in H as [Hc Hb].
   unfold dec_cfg, enc_cfg. rewrite <- !app_assoc.
   rewrite rd8_le.
-  2:{ unfold u64, timeout_millis, U64_MAX. lia. }
+  2:{ unfold u64, timeout_millis, U64_MAX. destruct (x_timeout c); lia. }
   rewrite rd4_le by assumption. destruct (x_chunk c <? XCFG_MIN_CHUNK_SIZE); [reflexivity|].
   rewrite rd4_le by assumption. destruct (x_buffer c <? XCFG_MIN_RECEIVE_BUFFER); [reflexivity|].
   rewrite rd2_le by assumption. destruct (x_queue c <? XCFG_MIN_CONNECT_QUEUE); reflexivity.
@@ -234,7 +235,7 @@ Proof.
   destruct t as [ns|]; [|reflexivity].
   repeat match goal with H : _ && _ = true |- _ => apply andb_true_iff in H as [H ?] end.
   unfold timeout_millis, NS_PER_MS, U64_MAX in *.
-  assert (E : N.min (ns / 1000000) 18446744073709551615 = ns / 1000000) by lia. rewrite E.
+  assert (E : N.max 1 (N.min (ns / 1000000) 18446744073709551615) = ns / 1000000) by lia. rewrite E.
   destruct (N.eqb_spec (ns / 1000000) 0) as [E0|E0]; [lia|]. f_equal. lia.
 Qed.
 
@@ -527,4 +528,16 @@ Theorem handshake_layout c : exact_cfg c = true -> handshake c = map Some (Spec3
 Proof.
   intros H. unfold handshake, handshake3. cbn [map]. f_equal. f_equal.
   apply enc_layout3. cbn [wf]. now rewrite H.
+Qed.
+
+(** a configured timeout is never exchanged as "none" (and "none" never as a timeout) *)
+Theorem timeout_presence_exchanged c :
+  (x_timeout c = None <-> x_timeout (exchanged c) = None) /\
+  (forall ns, x_timeout c = Some ns -> exists ms, 1 <= ms /\ x_timeout (exchanged c) = Some (ms * NS_PER_MS)).
+Proof.
+  unfold exchanged, timeout_millis, NS_PER_MS, U64_MAX. cbn [x_timeout].
+  destruct (x_timeout c) as [ns|]; cbv zeta.
+  - destruct (N.eqb_spec (N.max 1 (N.min (ns / 1000000) 18446744073709551615)) 0) as [E|E]; [lia|].
+    split; [split; discriminate|]. intros ns' [= <-]. eexists. split; [|reflexivity]. lia.
+  - change (0 =? 0) with true. cbv iota. split; [tauto|]. discriminate.
 Qed.
